@@ -127,6 +127,7 @@ fn sccs_json<N: Copy + Eq + std::hash::Hash>(s: Vec<Vec<N>>, inv: &std::collecti
 fn c09_weak<G>(g: G, fwd: &[G::NodeId], inv: &std::collections::HashMap<G::NodeId, usize>, f: &mut Fields, directed: bool)
 where
     G: IntoNeighbors + IntoNodeIdentifiers + Visitable + NodeIndexable + IntoEdgeReferences + Copy,
+    G::Map: Default,
     G::NodeId: Eq + std::hash::Hash + std::fmt::Debug,
 {
     f.insert("tar".into(), run(|| sccs_json(algo::tarjan_scc(g), inv)));
@@ -146,6 +147,11 @@ where
         let mut space = algo::DfsSpace::new(g);
         json!((0..n).map(|a| (0..n).map(|b| algo::has_path_connecting(g, fwd[a], fwd[b], Some(&mut space))).collect::<Vec<_>>()).collect::<Vec<_>>())
     }));
+    // a workspace that was not created from this graph (DfsSpace::default()): reset must size it
+    f.insert("hp3".into(), run(|| {
+        let mut space: algo::DfsSpace<G::NodeId, G::Map> = Default::default();
+        json!((0..n).map(|a| (0..n).map(|b| algo::has_path_connecting(g, fwd[a], fwd[b], Some(&mut space))).collect::<Vec<_>>()).collect::<Vec<_>>())
+    }));
     f.insert("cycu".into(), run(|| json!(algo::is_cyclic_undirected(g))));
     if directed {
         f.insert("cycd".into(), run(|| json!(algo::is_cyclic_directed(g))));
@@ -158,6 +164,7 @@ where
 fn c09_nd<G>(g: G, fwd: &[G::NodeId], inv: &std::collections::HashMap<G::NodeId, usize>, f: &mut Fields, directed: bool)
 where
     G: IntoNeighborsDirected + IntoNodeIdentifiers + Visitable + Copy,
+    G::Map: Default,
     G::NodeId: Eq + std::hash::Hash + std::fmt::Debug,
 {
     let n = fwd.len();
@@ -168,6 +175,10 @@ where
             Err(c) => json!(["cycle", inv[&c.node_id()]]),
         };
         f.insert("topo".into(), run(|| topo(None)));
+        f.insert("topo3".into(), run(|| {
+            let mut space: algo::DfsSpace<G::NodeId, G::Map> = Default::default();
+            topo(Some(&mut space))
+        }));
         f.insert("topo2".into(), run(|| {
             let mut space = algo::DfsSpace::new(g);
             let _ = algo::has_path_connecting(g, fwd[0], fwd[n - 1], Some(&mut space)); // dirty the workspace
@@ -485,21 +496,24 @@ pub fn c12_graph(out: &mut Out, ag: &AG, rng: &mut Rng) {
 
 // ------------------------------------------------------------------------------------------ C16
 
+thread_local! { pub static ROOT0_ONLY: std::cell::Cell<bool> = std::cell::Cell::new(false); }
+
 fn c16_dom<G>(g: G, fwd: &[G::NodeId], inv: &std::collections::HashMap<G::NodeId, usize>, f: &mut Fields)
 where
     G: IntoNeighbors + Visitable + Copy,
     G::NodeId: Eq + std::hash::Hash + Copy,
 {
-    let n = fwd.len();
+    let n = if ROOT0_ONLY.with(|c| c.get()) { 1 } else { fwd.len() };   // flow graphs: the entry node only
+    let nn = fwd.len();
     f.insert("dom".into(), run(|| json!((0..n).map(|r| {
         let d = algo::dominators::simple_fast(g, fwd[r]);
         let lst = |o: Option<algo::dominators::DominatorsIter<G::NodeId>>| match o { None => json!(["none"]), Some(it) => json!(["some", it.map(|x| inv[&x]).collect::<Vec<_>>()]) };
         json!({
             "root": inv[&d.root()],
-            "idom": (0..n).map(|v| d.immediate_dominator(fwd[v]).map(|x| inv[&x] as i64).unwrap_or(-1)).collect::<Vec<_>>(),
-            "doms": (0..n).map(|v| lst(d.dominators(fwd[v]))).collect::<Vec<_>>(),
-            "sdoms": (0..n).map(|v| lst(d.strict_dominators(fwd[v]))).collect::<Vec<_>>(),
-            "idby": (0..n).map(|v| d.immediately_dominated_by(fwd[v]).map(|x| inv[&x]).collect::<Vec<_>>()).collect::<Vec<_>>(),
+            "idom": (0..nn).map(|v| d.immediate_dominator(fwd[v]).map(|x| inv[&x] as i64).unwrap_or(-1)).collect::<Vec<_>>(),
+            "doms": (0..nn).map(|v| lst(d.dominators(fwd[v]))).collect::<Vec<_>>(),
+            "sdoms": (0..nn).map(|v| lst(d.strict_dominators(fwd[v]))).collect::<Vec<_>>(),
+            "idby": (0..nn).map(|v| d.immediately_dominated_by(fwd[v]).map(|x| inv[&x]).collect::<Vec<_>>()).collect::<Vec<_>>(),
         })
     }).collect::<Vec<_>>())));
 }
@@ -906,6 +920,7 @@ pub fn c20_graph(out: &mut Out, ag: &AG, rng: &mut Rng) {
 fn c08_walk<G>(g: G, fwd: &[G::NodeId], inv: &std::collections::HashMap<G::NodeId, usize>, f: &mut Fields, rng: &mut Rng, tag: &str)
 where
     G: IntoNeighbors + Visitable + Copy,
+    G::Map: Default,
     G::NodeId: Eq + std::hash::Hash + Copy,
 {
     let n = fwd.len();
@@ -927,7 +942,14 @@ where
             w.move_to(fwd[t]);
             let mut seq3 = vec![];
             while let Some(x) = w.next(g) { seq3.push(inv[&x]); if seq3.len() > lim { break; } }
-            json!({"s": s, "seq": seq, "none_again": again, "t": t, "seq2": seq2, "seq3": seq3})
+            // a walker whose map was not created from this graph: reset must make it usable
+            let mut w4 = $W::empty(g);
+            w4.discovered = Default::default();
+            w4.reset(g);
+            w4.move_to(fwd[s]);
+            let mut seq4 = vec![];
+            while let Some(x) = w4.next(g) { seq4.push(inv[&x]); if seq4.len() > lim { break; } }
+            json!({"s": s, "seq": seq, "none_again": again, "t": t, "seq2": seq2, "seq3": seq3, "seq4": seq4})
         }).collect::<Vec<_>>())));
     }}}
     walker!(Dfs, "dfs");
@@ -1078,6 +1100,20 @@ pub fn sweep(prop: &str, seed: u64, exhaustive_n: usize, random: usize, nmax: us
         for _ in 0..random {
             let ag = random_ag(&mut rng, nmax, directed, wlo, whi, true, true);
             f(out, &ag, &mut rng);
+        }
+        if prop == "C16" && !directed {
+            for _ in 0..3 * random {
+                let ag = cactus_ag(&mut rng);
+                f(out, &ag, &mut rng);
+            }
+        }
+        if prop == "C16" && directed {
+            ROOT0_ONLY.with(|c| c.set(true));
+            for k in 0..6 * random {
+                let ag = if k % 3 == 0 { flowgraph_ag(&mut rng) } else { irreducible_ag(&mut rng) };
+                f(out, &ag, &mut rng);
+            }
+            ROOT0_ONLY.with(|c| c.set(false));
         }
         if prop == "C15" {
             for _ in 0..(if directed { random } else { 5 * random }) {
